@@ -405,6 +405,8 @@ async def _tee_peer_done(
         if peer_buffer is buffer:
             peers.pop(idx)
             break
+    # drop items still buffered for this peer: an unstarted generator keeps its arguments
+    buffer.clear()
     # if we are the last peer, try and close the iterator
     if not peers and isinstance(iterator, ACloseable):
         await iterator.aclose()
